@@ -731,6 +731,81 @@ func runC16(r *Run) {
 	}
 	r.Rule("R11", "see C02 R4t (imported, mirror targets): a StateDB balance write made by a handler is a mirror of the native message's bank change only if the account's state object was loaded before that change (the frame's caller, the origin, or an address read through the StateDB before the effect); a 'mirror' for any other address — a withdraw address, a validator account — is applied on top of a balance that already contains the change, so the precompile credits twice what the native message credits")
 	r.Import("R11/C02.", []string{"R4t"}, runC02)
+	r.Rule("R14", "PATH.native-answer-of-any-length: the native message or query decides how many coins its answer carries (none when a commission or reward truncates to nothing, several under a multi-denomination reward) and succeeds in every case; a precompile function therefore takes a figure out of an sdk.Coins / sdk.DecCoins value by denomination (AmountOf) or by ranging over it, or indexes it at a constant position only where a test of len() of that same value dominates the access — an unguarded coins[k] panics (the call reverts) exactly where the native message succeeds")
+	{
+		isCoins := func(t types.Type) bool {
+			n := namedName(t)
+			return (n == "Coins" || n == "DecCoins") && strings.HasSuffix(namedPkgPath(t), "cosmos-sdk/types")
+		}
+		nF := 0
+		for _, fn := range P.Funcs {
+			if !strings.Contains(fnPkgPath(fn), "/precompiles/") || strings.Contains(fnPkgPath(fn), "/testutil") || isTestSupport(P, fn) || fn.Synthetic != "" {
+				continue
+			}
+			handles := false
+			var bad []ssa.Instruction
+			eachInstr(fn, func(in ssa.Instruction) {
+				v, ok := in.(ssa.Value)
+				if ok && isCoins(v.Type()) {
+					handles = true
+				}
+				var x, idx ssa.Value
+				switch t := in.(type) {
+				case *ssa.IndexAddr:
+					x, idx = t.X, t.Index
+				case *ssa.Index:
+					x, idx = t.X, t.Index
+				default:
+					return
+				}
+				if !isCoins(x.Type()) {
+					return
+				}
+				if _, isConst := idx.(*ssa.Const); !isConst {
+					return // a range/loop index is bounded by the loop condition
+				}
+				base := stripValue(x)
+				guarded := false
+				for _, b := range fn.Blocks {
+					iff, ok := lastIf(b)
+					if !ok || !dominates(b, in.Block()) || b == in.Block() {
+						continue
+					}
+					backSlice(iff.Cond).Any(func(v ssa.Value) bool {
+						if c, ok := v.(*ssa.Call); ok {
+							if bi, ok := c.Call.Value.(*ssa.Builtin); ok && bi.Name() == "len" && stripValue(c.Call.Args[0]) == base {
+								guarded = true
+							}
+							if ci := callInfo(c); (ci.Name == "Len" || ci.Name == "Empty" || ci.Name == "IsZero") && len(c.Call.Args) > 0 && stripValue(c.Call.Args[0]) == base {
+								guarded = true
+							}
+						}
+						return guarded
+					})
+				}
+				if !guarded {
+					bad = append(bad, in)
+				}
+			})
+			for _, p := range fn.Params {
+				if isCoins(p.Type()) {
+					handles = true
+				}
+			}
+			if !handles {
+				continue
+			}
+			nF++
+			pos, wit := fnPos(fn), []string(nil)
+			if len(bad) > 0 {
+				pos = instrPos(bad[0])
+				wit = P.witness(bad)
+			}
+			r.Check(len(bad) == 0, "R14", fnID(fn)+"#coins-read-by-denomination-or-under-length-test", P.Pos(pos), "no unguarded constant index into a coin list",
+				"a precompile function indexes a coin list at a constant position without a dominating test of its length: when the native answer is empty (an amount that truncates to nothing) or ordered differently the precompile panics or reports another denomination, while the native message succeeds", wit...)
+		}
+		r.Floor("R14", "precompile functions that handle a coin list", nF, 20)
+	}
 	// RunSetup
 	if rs, ok := P.FnOK("(precompiles/common.Precompile).RunSetup"); ok {
 		okMeter := false
